@@ -109,7 +109,9 @@ func (v *cachedSigVerifier) VerifyRandSeedAndLeaderSignature(h data.HeaderHandle
 	return v.get(h)[0]
 }
 func (v *cachedSigVerifier) VerifySignature(h data.HeaderHandler) error { return v.get(h)[1] }
-func (v *cachedSigVerifier) VerifyRandSeed(h data.HeaderHandler) error  { return v.real.VerifyRandSeed(h) }
+func (v *cachedSigVerifier) VerifyRandSeed(h data.HeaderHandler) error {
+	return v.real.VerifyRandSeed(h)
+}
 func (v *cachedSigVerifier) VerifyLeaderSignature(h data.HeaderHandler) error {
 	return v.real.VerifyLeaderSignature(h)
 }
